@@ -33,6 +33,9 @@ TEXTS = {
     "endless": ("while {true} do {GCNT = 1}", True),
     "endless_sleep": ("sleep 100000; 1", True),
     "spawn_sleeper": ("[] spawn { sleep 100000; }; 1", True),
+    # an expression evaluated by the preprocessor: an error in it is an error of the call; a script it starts belongs to no later call
+    "eval_error": ("private _v = __EVAL(1 + 1; [] select 9; 7); _v", True),
+    "eval_spawner": ("__EVAL([] spawn { [] select 9 }; 3)", True),
     "spawn": ("SP_%d = 0; [] spawn {SP_%d = 1}; [] spawn {sleep 0.01; SP_%d = SP_%d + 1}; 7", True),
     "bytes": (None, False),
     "config_read": ('getNumber (configFile >> "CfgC18" >> "v")', True),
@@ -62,7 +65,7 @@ def _history(draw):
             inst = draw(st.sampled_from(sorted(created)))
             flavour, limit = created[inst]
             typ = draw(st.sampled_from(["s"] * 10 + ["p", "p", "1", "1", "?", "?", "a"]))
-            classes = ["ok", "setglobal", "readglobal", "runtime_error", "runtime_error_last", "parse_error", "pp_unknown_directive", "pp_missing_include", "spawn", "bytes", "config_read"]
+            classes = ["ok", "setglobal", "readglobal", "runtime_error", "runtime_error_last", "parse_error", "pp_unknown_directive", "pp_missing_include", "spawn", "bytes", "config_read", "eval_error", "eval_spawner"]
             if limit > 0:
                 classes += ["endless", "endless", "endless_sleep", "spawn_sleeper", "spawn_sleeper"]
             cls = draw(st.sampled_from(classes))
@@ -165,6 +168,10 @@ def check(case, env):
                 pp_fail = cls in ("pp_unknown_directive", "pp_missing_include")
                 if cls == "bytes":
                     exp = None           # whatever the bytes mean: only the general rules below
+                elif cls == "eval_error":
+                    # the error raised inside __EVAL is an error of this call; which stage reports it is not fixed by the contract,
+                    # and for the types that do not execute (p, 1, unknown) nothing is asserted
+                    exp = "nonzero" if (typ == "s" and has_ops) else None
                 elif pp_fail:
                     exp = -2
                 elif not has_ops and typ in ("s", "1", "?") and cls != "parse_error":
@@ -185,6 +192,11 @@ def check(case, env):
                     exp = -6
                 else:
                     exp = 0
+                if exp == "nonzero":
+                    if rc == 0 and typ == "s":
+                        v = viol("return-code|%s|%s|got0" % (typ, cls), ctx + "sqfvm_call(%s text %r) returned 0 although an error was raised while it was processed\ncallback: %s" % (
+                            cls, text, [(c["sev"], (c["m"] or "")[:70]) for c in cb[:4]]))
+                    exp = None
                 if exp is not None and rc != exp:
                     v = viol("return-code|%s|%s|got%d" % (typ, cls, rc), ctx + "sqfvm_call(type %r, %s text %r) returned %d, the contract says %d\ncallback: %s" % (
                         typ, cls, text, rc, exp, [(c["sev"], (c["m"] or "")[:70]) for c in cb[:4]]))
